@@ -4,6 +4,7 @@ objects, but all objects fall into one of the following three categories:
 ``TexNode``, ``TexExpr`` (environments and commands), and ``TexGroup`` s.
 """
 
+import copy
 import itertools
 import re
 from TexSoup.utils import CharToLineOffset, Token, TC, to_list
@@ -429,8 +430,12 @@ class TexNode(object):
         >>> s = soup.section.copy()
         >>> s.parent is None
         True
+        >>> s.expr is soup.section.expr
+        False
         """
-        return TexNode(self.expr)
+        # copy the expression and everything below it, not its ancestors
+        expr = copy.deepcopy(self.expr, {id(self.expr.parent): None})
+        return TexNode(expr)
 
     def count(self, name=None, **attrs):
         r"""Number of descendants matching criteria.
@@ -1274,6 +1279,9 @@ class TexArgs(list):
         super().__init__()
         self.all = []
         self.extend(args)
+
+    def __deepcopy__(self, memo):
+        return TexArgs(copy.deepcopy(self.all, memo))
 
     def __coerce(self, arg):
         if isinstance(arg, str) and not arg.isspace():
